@@ -160,10 +160,49 @@ def run_tracker(ck, F):
         ck.missing_anchor(str(e), "C04.reader-honours-delta")
 
 
+CODEC_WRITERS = ["arrow_ipc::writer::IpcDataGenerator::record_batch_to_bytes", "arrow_ipc::writer::IpcDataGenerator::dictionary_batch_to_bytes"]
+
+
+def run_codec(ck, F):
+    ck.rule("C04.body-codec-from-options-only", "the message header announces BodyCompression iff write_options.batch_compression_type is set; the codec handed to "
+            "write_array_data (which decides whether the body buffers ARE compressed) must therefore be a function of the write options alone: no other parameter "
+            "(is_delta, the batch, the tracker) may influence it, by data flow or by choosing between two definitions", floor=len(CODEC_WRITERS))
+    for fid in CODEC_WRITERS:
+        fn = F.resolve(fid)
+        if fn is None:
+            ck.missing_anchor(fid, "C04.body-codec-from-options-only")
+            continue
+        b = Body(fn)
+        opts = [i for i, t in enumerate(b.locals) if 1 <= i <= b.argc and "IpcWriteOptions" in t]
+        sites = 0
+        for bb, t in b.calls():
+            if not (callee(t) or "").endswith("::write_array_data"):
+                continue
+            for i, a in enumerate(t["args"]):
+                if "CompressionCodec" not in (t.get("aty") or [""] * 9)[i]:
+                    continue
+                l = op_local(a)
+                if l is None:
+                    continue
+                sites += 1
+                roots = flow.influence_roots(b, l)
+                foreign = sorted(r for r in roots if r[0] == "param" and r[1] not in opts)
+                names = {pl[0]: nm for nm, pl in b.dbg if isinstance(pl, list) and not pl[1]}
+                if foreign:
+                    ck.bad("C04.body-codec-from-options-only", fid, "%s: the codec passed to write_array_data also depends on %s; the header's BodyCompression entry depends on "
+                           "write_options.batch_compression_type only, so header and body can disagree about compression" % (
+                               fid, ", ".join("`%s`" % names.get(r[1], "_%d" % r[1]) for r in foreign)), b.loc(bb))
+                else:
+                    ck.ok("C04.body-codec-from-options-only", fid, "codec depends on %s" % sorted(".".join(map(str, r[2:])) for r in roots if len(r) > 2))
+        if not sites:
+            ck.bad("C04.body-codec-from-options-only", fid, "%s no longer passes a CompressionCodec to write_array_data (anchor moved)" % fid, "%s:%s" % (fn["file"], fn["line"]))
+
+
 def run(ck, tier):
     F = factsmod.Facts("ws")
     run_agreement(ck, F)
     run_tracker(ck, F)
+    run_codec(ck, F)
     ck.note("Decided: node/buffer/child consumption agreement between the IPC array reader and the projection skipper for all 41 DataType constructors; "
             "dictionary tracker bookkeeping on every send path; isDelta honoured. Not decided: byte-level round trip, slicing arithmetic, compression, Flight splitting.")
     return F.info
